@@ -273,6 +273,10 @@ class C18(Machine):
                 inv['layered_run'] = True
                 if rng.random() < 0.6:
                     sec['layered'] = self._pick(rng, LAYERED, 0.4)
+            elif rng.random() < 0.15:
+                # a [layered] section without layered mode: not used by this
+                # run, but part of the simulation that is saved
+                sec['layered'] = self._pick(rng, LAYERED, 0.4)
         inv['auto'] = auto
         # command-line arguments that overlap the config file
         a = inv['args']
